@@ -461,6 +461,58 @@ func (l *mbLib) fieldsReadVia(im *mbImpl, body ast.Node, selves map[types.Object
 			return true
 		})
 	}
+	// whole-value uses: the receiver (or a local copy of it) converted, returned,
+	// stored or passed on as a value carries every field with it
+	// (`cloned := self; …; val := Value(cloned)`). Not whole-value uses: the base
+	// of a selector, the right-hand side of the copy itself, the left-hand side
+	// of an assignment, an argument followed precisely below.
+	{
+		notWhole := map[*ast.Ident]bool{}
+		ast.Inspect(body, func(n ast.Node) bool {
+			switch x := n.(type) {
+			case *ast.SelectorExpr:
+				if id, ok := mbStripDeref(x.X).(*ast.Ident); ok {
+					notWhole[id] = true
+				}
+			case *ast.AssignStmt:
+				for _, lh := range x.Lhs {
+					if id, ok := lh.(*ast.Ident); ok {
+						notWhole[id] = true
+					}
+				}
+				if len(x.Lhs) == len(x.Rhs) {
+					for i, r := range x.Rhs {
+						if id, ok := mbStripDeref(r).(*ast.Ident); ok {
+							if _, isId := x.Lhs[i].(*ast.Ident); isId {
+								notWhole[id] = true // the copy itself
+							}
+						}
+					}
+				}
+			case *ast.CallExpr:
+				fn := CalleeOf(l.info, x)
+				if hd := l.decls[fn]; hd != nil && hd.Body != nil && hd.Recv == nil {
+					ps := mbParamObjs(l.info, hd)
+					for i, a := range x.Args {
+						if id, ok := mbStripDeref(a).(*ast.Ident); ok && i < len(ps) && ps[i] != nil && l.implOfType(ps[i].Type()) == im {
+							notWhole[id] = true
+						}
+					}
+				}
+			}
+			return true
+		})
+		ast.Inspect(body, func(n ast.Node) bool {
+			id, ok := n.(*ast.Ident)
+			if !ok || notWhole[id] || !selves[l.info.Uses[id]] {
+				return true
+			}
+			for i := 0; i < im.st.NumFields(); i++ {
+				out[im.st.Field(i).Name()] = true
+			}
+			return true
+		})
+	}
 	ast.Inspect(body, func(n ast.Node) bool {
 		switch x := n.(type) {
 		case *ast.SelectorExpr:
@@ -747,7 +799,75 @@ func (ta *mbTaintAn) flows(fd *ast.FuncDecl, seed map[types.Object]string, selfR
 			}
 		}
 	}
+	// whole copies of the receiver: `c := self` (and copies of copies)
+	wholeCopies := map[types.Object]bool{}
 	var taintOf func(e ast.Expr) string
+	if selfRecv != nil {
+		for round := 0; round < 2; round++ {
+			mbInspectNoLit(fd.Body, func(nd ast.Node) bool {
+				as, ok := nd.(*ast.AssignStmt)
+				if !ok || len(as.Lhs) != len(as.Rhs) {
+					return true
+				}
+				for i, r := range as.Rhs {
+					rid, ok := ast.Unparen(r).(*ast.Ident)
+					lid, ok2 := as.Lhs[i].(*ast.Ident)
+					if !ok || !ok2 {
+						continue
+					}
+					if ro := info.Uses[rid]; ro != nil && (ro == selfRecv || wholeCopies[ro]) {
+						if lo := info.Defs[lid]; lo != nil {
+							wholeCopies[lo] = true
+						}
+					}
+				}
+				return true
+			})
+		}
+	}
+	// sharedFields: reference-carrying fields of the receiver's struct that the
+	// copy o (or the receiver itself) still shares: not re-assigned through o
+	// with a value that carries nothing of the receiver
+	sharedFields := func(o types.Object) []string {
+		t := selfRecv.Type()
+		if p, ok := t.(*types.Pointer); ok {
+			t = p.Elem()
+		}
+		st, ok := t.Underlying().(*types.Struct)
+		if !ok {
+			return nil
+		}
+		fresh := map[string]bool{}
+		if o != selfRecv {
+			mbInspectNoLit(fd.Body, func(nd ast.Node) bool {
+				as, ok := nd.(*ast.AssignStmt)
+				if !ok || len(as.Lhs) != len(as.Rhs) {
+					return true
+				}
+				for i, lh := range as.Lhs {
+					sel, ok := ast.Unparen(lh).(*ast.SelectorExpr)
+					if !ok {
+						continue
+					}
+					if id, ok := ast.Unparen(sel.X).(*ast.Ident); ok && info.Uses[id] == o && taintOf(as.Rhs[i]) == "" {
+						fresh[sel.Sel.Name] = true
+					}
+				}
+				return true
+			})
+		}
+		var out []string
+		for i := 0; i < st.NumFields(); i++ {
+			f := st.Field(i)
+			if _, isFn := f.Type().Underlying().(*types.Signature); isFn {
+				continue
+			}
+			if mbHasRefs(f.Type(), 0) && !fresh[f.Name()] {
+				out = append(out, f.Name())
+			}
+		}
+		return out
+	}
 	taintOf = func(e ast.Expr) string {
 		if e == nil {
 			return ""
@@ -764,6 +884,14 @@ func (ta *mbTaintAn) flows(fd *ast.FuncDecl, seed map[types.Object]string, selfR
 		case *ast.Ident:
 			if w, ok := tainted[info.Uses[x]]; ok {
 				return w
+			}
+			// the receiver as a whole value, or a local copy of it: it carries
+			// every reference field that the copy has not been given a fresh
+			// value for (`c := self; c.F = fresh`)
+			if o := info.Uses[x]; o != nil && (o == selfRecv || wholeCopies[o]) && selfRecv != nil {
+				if rem := sharedFields(o); len(rem) > 0 {
+					return "self." + strings.Join(rem, ", self.") + " (carried by a copy of the whole receiver)"
+				}
 			}
 			return ""
 		case *ast.SelectorExpr:
@@ -975,6 +1103,9 @@ func (ta *mbTaintAn) flows(fd *ast.FuncDecl, seed map[types.Object]string, selfR
 					for i := range x.Lhs {
 						if refinedScalar(x.Pos(), x.Rhs[i]) {
 							continue
+						}
+						if lid, ok := x.Lhs[i].(*ast.Ident); ok && wholeCopies[info.Defs[lid]] {
+							continue // judged per field (sharedFields)
 						}
 						if w := taintOf(x.Rhs[i]); w != "" {
 							if setTaint(rootObj(x.Lhs[i]), w) {
